@@ -152,28 +152,58 @@ def coqchk(prop, timeout=2400):
     return ok, ' '.join(summ.split())
 
 
+def strip_coq_comments(text):
+    """remove (possibly nested, multi-line) Coq comments and string literals, keeping line structure"""
+    out, i, depth, n, in_str = [], 0, 0, len(text), False
+    while i < n:
+        c = text[i]
+        if in_str:
+            if c == '"':
+                in_str = False
+            out.append('\n' if c == '\n' else ' ')
+            i += 1
+        elif depth == 0 and c == '"':
+            in_str = True
+            out.append(' ')
+            i += 1
+        elif text.startswith('(*', i):
+            depth += 1
+            out.append('  ')
+            i += 2
+        elif depth > 0 and text.startswith('*)', i):
+            depth -= 1
+            out.append('  ')
+            i += 2
+        else:
+            out.append(c if depth == 0 or c == '\n' else ' ')
+            i += 1
+    return ''.join(out)
+
+
 def forbidden_scan():
-    """no Admitted/admit/Axiom/... anywhere in the development"""
+    """no Admitted/admit/Axiom/... anywhere in the development (comments and strings excluded)"""
     hits = []
-    pat = re.compile(r'\b(Admitted|admit|Axiom|Axioms|Parameter|Parameters|Conjecture|Hypothesis|Variable|Variables|Hypotheses)\b|Unset Guard|bypass_check|type-in-type|impredicative-set|Admit Obligations')
+    pat = re.compile(r'\b(Admitted|admit|Axiom|Axioms|Parameter|Parameters|Conjecture|Conjectures|Hypothesis|Variable|Variables|Hypotheses)\b|Unset\s+Guard|bypass_check|type-in-type|impredicative-set|Admit\s+Obligations|Unset\s+Positivity|Unset\s+Universe')
     for root, _, files in os.walk(os.path.join(COQ, 'theories')):
         for f in files:
             if not f.endswith('.v'):
                 continue
             p = os.path.join(root, f)
-            depth = 0
-            for i, line in enumerate(open(p, errors='replace'), 1):
-                code = re.sub(r'\(\*.*?\*\)', '', line)
+            stack = []
+            code_lines = strip_coq_comments(open(p, errors='replace').read()).split('\n')
+            for i, code in enumerate(code_lines, 1):
                 if re.match(r'\s*Section\b', code):
-                    depth += 1
-                if re.match(r'\s*End\b', code) and depth > 0:
-                    depth -= 1
+                    stack.append('S')
+                elif re.match(r'\s*Module\s+(?!Import\b|Export\b)(Type\s+)?[A-Za-z_]', code) and ':=' not in code:
+                    stack.append('M')
+                if re.match(r'\s*End\b', code) and stack:
+                    stack.pop()
                 m = pat.search(code)
                 if m:
                     w = m.group(0)
-                    if w in ('Variable', 'Variables', 'Hypothesis', 'Hypotheses') and depth > 0:
+                    if w in ('Variable', 'Variables', 'Hypothesis', 'Hypotheses') and 'S' in stack:
                         continue
-                    hits.append('%s:%d: %s' % (os.path.relpath(p, VERIF), i, line.strip()))
+                    hits.append('%s:%d: %s' % (os.path.relpath(p, VERIF), i, code.strip()))
     return hits
 
 
